@@ -188,11 +188,11 @@ def hC : Heap := (okOr (hB.put (.pair 0 0))).1
 
 /-- `WFHeap` is inhabited by heaps with live structure: a fresh heap after two `put`s -/
 example : WFHeap true hC ∧ hC.NonFree 0 ∧ hC.NonFree 1 ∧ hC.symLookup ['a'] = some 0 := by
-  have h0 : Heap.new 8 = .ok hA := by decide
+  have h0 : Heap.new 8 = .ok hA := rfl
   have wf0 := new_wf 8 _ (by decide) (by decide) h0
-  have h1 : hA.put (.symbol ['a']) = .ok (hB, .ptr 0) := by decide
+  have h1 : hA.put (.symbol ['a']) = .ok (hB, .ptr 0) := rfl
   obtain ⟨wf1, _⟩ := put_preserves_wf _ _ _ _ wf0 (by intro y hy; cases hy) (by decide) h1
-  have h2 : hB.put (.pair 0 0) = .ok (hC, .ptr 1) := by decide
+  have h2 : hB.put (.pair 0 0) = .ok (hC, .ptr 1) := rfl
   obtain ⟨wf2, _⟩ := put_preserves_wf _ _ _ _ wf1
     (by intro y hy
         have : y = 0 := by simpa [crefs] using hy
@@ -254,7 +254,7 @@ theorem unfixed_marker_allocates_cell_twice :
       (collected (Heap.runGc false true witness witnessRoots)) noRoots))).count 5 = 2 := by decide
 
 theorem fixed_marker_allocates_each_cell_once :
-    (allocN 8 (collected (Heap.runGc true true
-      (collected (Heap.runGc true true witness witnessRoots)) noRoots))).Nodup := by decide
+    allocN 7 (collected (Heap.runGc true true
+      (collected (Heap.runGc true true witness witnessRoots)) noRoots)) = [0, 2, 3, 4, 5, 6, 7] := by decide
 
 end Marwood.Proofs.C03
